@@ -373,7 +373,7 @@ impl Scenario for GraphAllocScenario {
     }
     fn runs(&self, tier: &str) -> u64 {
         if tier == "quick" {
-            40_000
+            150_000
         } else {
             3_000_000
         }
